@@ -23,6 +23,7 @@ def runModel (ty : String) (s e : Int) (index peers : Nat) : Res :=
 
 def fmtRes (index : Nat) : Res → String
   | .overflow => s!"{index} panic:overflow"
+  | .divzero => s!"{index} panic:other:attempt_to_divide_by_zero"
   | .unwrap => s!"{index} panic:unwrap"
   | .range a b => if a < b then s!"{index} {a} {b}" else s!"{index} empty"
 
@@ -40,32 +41,22 @@ def parseObs (s : String) : Option (Nat × Obs) :=
   | _ => none
 
 def TWO62 : Int := 4611686018427387904
-def TWO63 : Int := 9223372036854775808
 
 /-- Property oracle (spec side; does not use the model): reversed or empty range ⇒ every replica yields
-    nothing; forward range (within the quantifier: at most 2^62 elements) ⇒ no replica panics, the
-    non-empty chunks lie inside `[start,end)`, are disjoint and ordered by replica index, and — when
-    every index `0..peers-1` was queried — tile `[start,end)` exactly. Returns the failures, each with
-    its kind (`F1`, `F7`, `F10`, `other`). -/
-def oracle (ty : String) (s e : Int) (peers : Nat) (obs : List (Nat × Obs)) : List (String × String) :=
+    nothing and does not panic; forward range ⇒ no replica panics, the non-empty chunks lie inside
+    `[start,end)`, are disjoint and ordered by replica index, and — when every index `0..peers-1` was
+    queried — tile `[start,end)` exactly. Returns the failures. -/
+def oracle (ty : String) (s e : Int) (peers : Nat) (obs : List (Nat × Obs)) : List String :=
   if e ≤ s then
     obs.filterMap fun (i, o) =>
       match o with
       | .empty => none
-      | .chunk a b => some ("F1", s!"replica {i} of the reversed/empty range {s}..{e} yields {a}..{b}")
-      | .panic c => some ("F1", s!"replica {i} of the reversed/empty range {s}..{e} panics ({c})")
+      | .chunk a b => some s!"replica {i} of the reversed/empty range {s}..{e} yields {a}..{b}"
+      | .panic c => some s!"replica {i} of the reversed/empty range {s}..{e} panics ({c})"
   else
     let panics := obs.filterMap fun (i, o) =>
       match o with
-      | .panic c =>
-        -- F10 (narrow types): the replica's start offset `s + i·⌈(e-s)/peers⌉` exceeds `T::MAX`
-        let narrowOverflow : Bool := match parseTy ty with
-          | some t => decide (t.hi < I64_MAX) && c == "unwrap" && decide (peers > 0) &&
-              decide (s + (i : Int) * ((e - s + (peers : Int) - 1) / (peers : Int)) > t.hi)
-          | none => false
-        some (if ty == "usize" ∧ (s ≥ TWO63 ∨ e ≥ TWO63) then "F7"
-              else if narrowOverflow then "F10" else "other",
-              s!"replica {i} of {s}..{e} ({ty}, {peers} replicas) panics ({c})")
+      | .panic c => some s!"replica {i} of {s}..{e} ({ty}, {peers} replicas) panics ({c})"
       | _ => none
     if !panics.isEmpty then panics else
     let sorted := obs.toArray.qsort (fun a b => a.1 < b.1) |>.toList
@@ -77,10 +68,10 @@ def oracle (ty : String) (s e : Int) (peers : Nat) (obs : List (Nat × Obs)) : L
       match o with | .chunk a b => some (i, a, b) | _ => none
     let inside := chunks.filterMap fun (i, a, b) =>
       if s ≤ a ∧ a < b ∧ b ≤ e then none
-      else some ("other", s!"replica {i} yields {a}..{b} outside {s}..{e}")
+      else some s!"replica {i} yields {a}..{b} outside {s}..{e}"
     let ordered := (chunks.zip (chunks.drop 1)).filterMap fun ((i, _, b), (j, a', _)) =>
       if b ≤ a' then none
-      else some ("other", s!"replicas {i} and {j} overlap or are out of order: ..{b} vs {a'}..")
+      else some s!"replicas {i} and {j} overlap or are out of order: ..{b} vs {a'}.."
     let complete := idxs.length == peers
     let cover :=
       if !complete then [] else
@@ -92,7 +83,7 @@ def oracle (ty : String) (s e : Int) (peers : Nat) (obs : List (Nat × Obs)) : L
           else some s!"replica {i} starts at {a}, expected {pos} (gap or duplicate)"
       match chain s chunks with
       | none => []
-      | some m => [("other", m)]
+      | some m => [m]
     inside ++ ordered ++ cover
 
 def handle (c : Case) : Verdict :=
@@ -104,18 +95,15 @@ def handle (c : Case) : Verdict :=
       let res := idxs.map fun i => (i, runModel ty s e i peers)
       let out := res.map fun (i, r) => fmtRes i r
       let obs := c.implOut.filterMap parseObs
+      -- outside C15's quantifier (more than 2^62 elements / replicas): `Range<u64>` loses the tail when
+      -- `n + peers - 1` saturates; the oracle is not applied there (the model diff still is)
       let beyond := s < e ∧ (e - s > TWO62 ∨ (peers : Int) > TWO62)
       let fails := if beyond then [] else oracle ty s e peers obs
       let oracleMsg : Option String :=
         if obs.length ≠ c.implOut.length then some "unparsable implementation output"
         else match fails with
           | [] => none
-          | (k, m) :: _ =>
-            let all (kind : String) := fails.all (·.1 == kind)
-            let pre := if all "F1" then "known:F1-reversed-range "
-                       else if all "F7" then "known:F7-usize-range-over-i64 "
-                       else if all "F10" then "known:F10-narrow-range-start-overflow " else ""
-            some s!"{pre}{fails.length} failure(s), first [{k}]: {m}"
+          | m :: _ => some s!"{fails.length} failure(s), first: {m}"
       let shape := if e < s then "reversed" else if e == s then "empty" else if beyond then "beyond" else "forward"
       let len := (e - s).toNat
       let pcls := if peers == 1 then "p=1" else if s < e ∧ len < peers then "len<p" else if s < e ∧ len == peers then "len=p"
